@@ -322,6 +322,9 @@ class TemplateData(object):
         """
         operator_code, operand_value = descriptor.operator_code, descriptor.operand_value
 
+        # Like an element of another class, an operator concludes a run of quality values
+        self.conclude_qa_info_values()
+
         if operator_code in (201, 202, 203, 206, 207, 208,):
             # nbits offset, scale offset, new refval, skip local, increment, change string length
             if operator_code == 203:
